@@ -78,7 +78,7 @@ def run(ctx):
         f_neg = [(bug, inv, ex.submit(vf.tlc_mc, "MC_GitPush", "MC_GitPush_neg_" + bug, expect_violation=inv,
                                       workers=1, timeout=300)) for bug, inv in NEG]
         f_gen = [(g, ex.submit(vf.tlc_generate, "MC_GitPush", g, timeout=900)) for g in gens]
-        f_sim = ex.submit(vf.tlc_generate, "MC_GitPush", "MC_GitPush_gen_sim", simulate="num=%d" % ctx.q(4, 30),
+        f_sim = ex.submit(vf.tlc_generate, "MC_GitPush", "MC_GitPush_gen_sim", simulate="num=%d" % ctx.q(4, 25),
                           seed=ctx.seed, timeout=900)
         ctx.add_mc(f_mc.result(), cfg)
         for bug, inv, f in f_neg:
@@ -103,7 +103,7 @@ def run(ctx):
     other = ctx.q("fast", "real")
     jobs = [["push", "--replay", behf, "--shard", i, "--of", K, "--otherpush", other,
              "--out", ctx.path("replay%d.ndjson" % i)] for i in range(K)]
-    n_rand = ctx.q(80, 800)
+    n_rand = ctx.q(80, 600)
     jobs += [["push", "--random", n_rand // K, "--seed", ctx.seed * 1000 + i, "--maxsteps", 10, "--nb", 2,
               "--otherpush", other, "--out", ctx.path("random%d.ndjson" % i)] for i in range(K)]
     shards(ctx, jobs)
